@@ -609,6 +609,22 @@ func (ex *Exec) eqVal(a, b *Val) string {
 		return eq(a.S, b.S)
 	}
 	if a.Sh.IsLeaf() != b.Sh.IsLeaf() || len(a.Kids) != len(b.Kids) {
+		// a slice or map compared with nil: nil implies empty (an empty container may or may not be nil)
+		for _, pr := range [][2]*Val{{a, b}, {b, a}} {
+			c, n := pr[0], pr[1]
+			if bt, ok := n.T.(*types.Basic); ok && bt.Kind() == types.UntypedNil && c.Sh != nil {
+				r := ex.eng.smt.fresh("isnil", "Bool")
+				switch c.Sh.Kind {
+				case "slice":
+					ex.eng.smt.addAx(r, implies(r, eq(c.kid("len").S, "0")))
+					ex.eng.smt.addAx(r, implies("(> "+c.kid("len").S+" 0)", not(r)))
+					return r
+				case "map":
+					ex.eng.smt.addAx(r, implies(r, eq(c.kid("card").S, "0")))
+					return r
+				}
+			}
+		}
 		return ex.eng.smt.fresh("eqmix", "Bool")
 	}
 	if a.Sh.Kind == "any" {
